@@ -1,5 +1,8 @@
 """Sidecar contracts.  PROPS maps a property id to the contract modules that carry it."""
 PROPS = {
+    "C05": ["c05_outline", "c06_bracketing"],
+    "C06": ["c06_bracketing"],
+    "C11": ["c11_clocks", "c06_bracketing"],
     "C21": ["c21_needs"],
     "C38": ["c38_exchange"],
     "C41": ["c41_crc"],
